@@ -320,3 +320,70 @@ func OverlapRecords(t *tape.Tape, data []byte, lo, hi int) ([]byte, Fault) {
 	}
 	return out, Fault{Kind: "none"}
 }
+
+// AliasBomb assembles a GSUB table by hand in which nLookups lookup records
+// all point at one and the same lookup table, whose subPerLookup subtable
+// offsets all point at one and the same single-substitution subtable: a
+// legal use of offsets (sharing is how font tools save space) that makes the
+// decoded size a multiple of the stored size.  markFiltering adds the
+// UseMarkFilteringSet flag and the set index to the shared lookup table.
+func AliasBomb(nLookups, subPerLookup int, markFiltering bool) []byte {
+	be := func(b []byte, v int) []byte { return append(b, byte(v>>8), byte(v)) }
+	var b []byte
+	b = be(b, 1)  // major version
+	b = be(b, 0)  // minor version
+	b = be(b, 10) // script list
+	b = be(b, 12) // feature list
+	b = be(b, 14) // lookup list
+	b = be(b, 0)  // no scripts
+	b = be(b, 0)  // no features
+	// lookup list
+	b = be(b, nLookups)
+	lookupOffs := 2 + 2*nLookups
+	for i := 0; i < nLookups; i++ {
+		b = be(b, lookupOffs)
+	}
+	// the shared lookup table
+	flags := 0
+	if markFiltering {
+		flags = 0x0010
+	}
+	b = be(b, 1) // single substitution
+	b = be(b, flags)
+	b = be(b, subPerLookup)
+	subOffs := 6 + 2*subPerLookup
+	if markFiltering {
+		subOffs += 2
+	}
+	for i := 0; i < subPerLookup; i++ {
+		b = be(b, subOffs)
+	}
+	if markFiltering {
+		b = be(b, 0)
+	}
+	// the shared subtable: format 1, coverage at 6, delta 1; coverage format 1 with glyph 5
+	b = be(b, 1)
+	b = be(b, 6)
+	b = be(b, 1)
+	b = be(b, 1)
+	b = be(b, 1)
+	b = be(b, 5)
+	return b
+}
+
+// FDSelect3 returns the format 3 encoding of the FDSelect function sel over
+// n glyphs (used to locate that structure inside an encoded CFF table).
+func FDSelect3(sel func(int) int, n int) []byte {
+	var ranges [][2]int
+	for i := 0; i < n; i++ {
+		fd := sel(i)
+		if len(ranges) == 0 || ranges[len(ranges)-1][1] != fd {
+			ranges = append(ranges, [2]int{i, fd})
+		}
+	}
+	b := []byte{3, byte(len(ranges) >> 8), byte(len(ranges))}
+	for _, r := range ranges {
+		b = append(b, byte(r[0]>>8), byte(r[0]), byte(r[1]))
+	}
+	return append(b, byte(n>>8), byte(n))
+}
